@@ -4,7 +4,7 @@
     [esub t s] = the bindings of t, expanded, are bindings of the notation-free map s.  Partial-correctness
     form over the fuel (termination: Py/Termination.v). *)
 From Coq Require Import NArith List Bool.
-From Pi2 Require Import ML.Syntax Py.Pattern Py.PatFacts Py.ExpandFacts Py.MatchFacts Py.Termination Py.Total Py.Bridge Py.Current Py.Witness.
+From Pi2 Require Import ML.Syntax Py.Pattern Py.PatFacts Py.ExpandFacts Py.MatchFacts Py.Termination Py.Total Py.Bridge Py.Current Py.NaryFacts Py.Witness.
 Import ListNotations.
 Open Scope N_scope.
 
@@ -182,3 +182,17 @@ Example C13_ex_current_constrained :
   corner_free [1] [] p = true /\ corner_free [1] [] i = true /\
   match_single flags_current 30 p i [] = Some (Some [(0, neg_p (PEVar 1)); (1, PESub (pphi 2) 1 (PEVar 2))]).
 Proof. vm_compute. repeat split; reflexivity. Qed.
+
+(** deconstruct_nary_application returns a head and arguments that rebuild an equal pattern *)
+Theorem C13_deconstruct_nary_rebuilds : forall f, f_mv_keep_subst f = true -> f_inst_extend f = true ->
+  forall n p h args, decon_nary f n p = Some (h, args) ->
+  p_apps (expand f h) (map (expand f) args) = expand f p.
+Proof. exact decon_nary_rebuild. Qed.
+Theorem C13_deconstruct_nary_rebuilds_current_code : forall se ss n p h args,
+  corner_free se ss p = true -> decon_nary flags_current n p = Some (h, args) ->
+  p_apps (expand flags_current h) (map (expand flags_current) args) = expand flags_current p.
+Proof.
+  intros se ss n p h args Hc H. apply (decon_nary_expand_cur se ss flags_current eq_refl) in H; [|exact Hc].
+  rewrite <- (p_spine_rebuild (expand flags_current p)), H. reflexivity.
+Qed.
+Print Assumptions C13_deconstruct_nary_rebuilds_current_code.
